@@ -14,7 +14,7 @@ TRUSTED = [
 ]
 ASSUMPTIONS = ["scope: the RFB receive path of rfb.py (all _handle* states); work is measured in Python-level calls of rfb.py functions against 16*(bytes received + bytes inflated) + 64"]
 RULE = ("grammar-derived server streams in which every length/count field is independently set to 0, 1, its natural value or its maximum; "
-        "truncated at random positions; random byte mutations; pure random bytes after a valid handshake; ZRLE blocks with surplus/short tile data and "
+        "zero-area rectangles and zero-area / zero-count sub-rectangles in Raw, CopyRect, RRE, CoRRE and Hextile; truncated at random positions; random byte mutations; pure random bytes after a valid handshake; ZRLE blocks with surplus/short tile data and "
         "zero/oversized dimensions; delivered whole, byte-wise (short) or randomly chunked, to the base and the library client. Non-trivial = distinct stream that "
         "reaches a state beyond the handshake")
 
@@ -106,8 +106,51 @@ def gen_stream(r, kind, opts):
         return stream, authresp, "valid"
     if how < .6:
         return stream[:r.randrange(12, len(stream) + 1)], authresp, "truncated"
-    if how < .85:
+    if how < .8:
         return mutate_fields(r, stream, None), authresp, "field-mutation"
+    if how < .89:
+        # zero-area rectangles and zero-area / zero-count sub-rectangles in every encoding that has them
+        bypp = pf.bpp // 8
+        px = lambda: bytes(r.randrange(256) for _ in range(bypp))
+        rects = b""
+        nrect = r.randint(1, 4)
+        for _ in range(nrect):
+            enc = r.choice([0, 1, 2, 2, 4, 4, 5])
+            w, h = r.choice([0, 0, 1, 2, 17]), r.choice([0, 0, 1, 2, 17])
+            x, y = r.choice([0, 1, 5]), r.choice([0, 1, 5])
+            rects += struct.pack("!HHHHi", x, y, w, h, enc)
+            if enc == 0:
+                rects += bytes(r.randrange(256) for _ in range(w * h * bypp))
+            elif enc == 1:
+                rects += struct.pack("!HH", r.choice([0, 3]), r.choice([0, 3]))
+            elif enc == 2:
+                nsub = r.choice([0, 1, 2, 5])
+                rects += struct.pack("!I", nsub) + px()
+                for _ in range(nsub):
+                    rects += px() + struct.pack("!HHHH", r.choice([0, 1]), r.choice([0, 1]), r.choice([0, 0, 1, 2]), r.choice([0, 0, 1, 2]))
+            elif enc == 4:
+                nsub = r.choice([0, 1, 2, 5])
+                rects += struct.pack("!I", nsub) + px()
+                for _ in range(nsub):
+                    rects += px() + bytes([r.choice([0, 1]), r.choice([0, 1]), r.choice([0, 0, 1, 2]), r.choice([0, 0, 1, 2])])
+            else:
+                # hextile: per 16x16 tile a sub-encoding byte; AnySubrects with a count of 0, background only, raw
+                for ty in range(0, h, 16):
+                    for tx in range(0, w, 16):
+                        tw, th = min(16, w - tx), min(16, h - ty)
+                        k = r.choice(["raw", "bg", "sub0", "subn", "none"])
+                        if k == "raw":
+                            rects += bytes([1]) + bytes(r.randrange(256) for _ in range(tw * th * bypp))
+                        elif k == "bg":
+                            rects += bytes([2]) + px()
+                        elif k == "sub0":
+                            rects += bytes([2 | 4 | 8]) + px() + px() + bytes([0])
+                        elif k == "subn":
+                            n_ = r.choice([1, 3])
+                            rects += bytes([2 | 8 | 16]) + px() + bytes([n_]) + b"".join(px() + bytes([0, 0]) for _ in range(n_))
+                        else:
+                            rects += bytes([0])
+        return b"".join(parts) + struct.pack("!BxH", 0, nrect) + rects + sess.bell(), authresp, "zero-area"
     if how < .93:
         # ZRLE with surplus / short tile data, zero dimensions
         zr = enc_zrle(r, pf, 0, 0, r.choice([0, 1, 3, 64, 65]), r.choice([0, 1, 2, 64]))
